@@ -5,7 +5,7 @@ from vlib import log
 import codec_common as cc
 
 CHECKER = "make -C /verif/coq Props/C12.vo (full .vo build of the cone) && coqc -Q /verif/coq GMQ Props/C12.v"
-GEN = ["Codec/gen/MethodsGen.v", "Codec/gen/TagsGen.v", "Codec/gen/ConstGen.v", "Codec/gen/SpecGen.v"]
+GEN = ["Codec/gen/MethodsGen.v", "Codec/gen/TagsGen.v", "Codec/gen/ConstGen.v", "Codec/gen/SpecGen.v", "Codec/gen/RecordsGen.v"]
 
 
 def run(res):
@@ -13,10 +13,10 @@ def run(res):
     tr = vlib.run_translator("codec")
     res.cov["translator"] = {g: tr["files"].get(g, {}) for g in GEN}
     res.cov["translator"]["shapes"] = tr["shapes"]
-    unrec = {g: s for g, s in tr["files"].items() if s.get("status") != "ok"}
+    unrec = cc.unrecognised(tr, GEN)
     if unrec:
-        res.notes.append("translator met unfamiliar shapes (affected descriptions fall back to the grammar / repaired behaviour; "
-                         "the property then stands on the correspondence for them): %s" % json.dumps(unrec)[:1500])
+        res.notes.append("translator met unfamiliar shapes: %s" % json.dumps(unrec)[:1500])
+    res.cov["unrecognised_shapes"] = unrec
     # hand-modelled Go functions: say so when one is no longer the shape the model was written against
     try:
         pinned = json.load(open(os.path.join(vlib.VERIF, "checks", "codec_shapes.json")))
@@ -73,7 +73,7 @@ def run(res):
             nontrivial.add(e.value)
     res.cov["distinct_nontrivial"] = len(nontrivial)
     res.cov["rule"] = ("typed random values per method struct / table (both dialects, nested tables and arrays, every Go type) / content header (random "
-                       "flag subsets) / frame / stored message, queue, exchange, binding -> Go encode -> Go decode; the Coq model (vm_compute) must produce "
+                       "flag subsets) / frame / stored message (delivery count included), queue, exchange, binding -> Go encode -> Go decode (a restored binding must also answer 32 topic/direct/fanout/header probes like the binding it was stored from); the Coq model (vm_compute) must produce "
                        "the same bytes (byte-exact when no map has more than one entry, else same length and byte sum) and decode every byte string - "
                        "Go's own output and %d mutated / arbitrary inputs - to the same result; non-trivial = distinct values that are methods or contain a "
                        "table/array" % len(ds))
@@ -82,7 +82,7 @@ def run(res):
     res.cov["traces_validated_against_impl"] = (len(es) - len(bad_e or [])) + (len(alld) - len(bad_d or []))
     res.cov["exhaustive"] = False
     res.cov["alloc_shapes"] = cc.alloc_shapes()
-    decide(res, pr, tr, exe, es, alld, bad_e, bad_d, rt_fail, enc_fail, peer_bad)
+    decide(res, pr, tr, exe, es, alld, bad_e, bad_d, rt_fail, enc_fail, peer_bad, unrec)
 
 
 def shrink_roundtrip(exe, seed, e):
@@ -90,8 +90,8 @@ def shrink_roundtrip(exe, seed, e):
     return e
 
 
-def decide(res, pr, tr, exe, es, alld, bad_e, bad_d, rt_fail, enc_fail, peer_bad=()):
-    if pr["ok"] and bad_e == [] and bad_d == [] and not rt_fail and not enc_fail and not peer_bad:
+def decide(res, pr, tr, exe, es, alld, bad_e, bad_d, rt_fail, enc_fail, peer_bad=(), unrec=None):
+    if pr["ok"] and bad_e == [] and bad_d == [] and not rt_fail and not enc_fail and not peer_bad and not unrec:
         return
     what = []
     if not pr["ok"]:
@@ -158,6 +158,11 @@ def decide(res, pr, tr, exe, es, alld, bad_e, bad_d, rt_fail, enc_fail, peer_bad
                 return
         except vlib.Infra as x:
             what.append("grammar search failed: %s" % str(x)[:300])
+    if unrec:
+        # nothing concrete found (Go round trip, regenerated model, grammar model all agree on everything that was run)
+        cc.report_unrecognised(res, unrec, "typed round trips, mutated decoder inputs, independent peer and the grammar-instantiated model: no failing input")
+        if pr["ok"]:
+            return
     res.violation(dict(kind="obligation", broken=what, translator={g: tr["files"].get(g) for g in GEN}), False, "; ".join(what))
 
 
